@@ -67,6 +67,9 @@ CASES = [
  ('c04-add-proxy-keeps-reports', 'C04', U, '        cleared = self.store.failures.remove(&proxy_address).is_some() || cleared;', '        cleared = self.store.failures.contains_key(&proxy_address) || cleared;', 'violation'),
  ('c04-add-failure-no-bump', 'C04', U, '            return false;\n        }\n        self.store.bump_global_epoch();\n        self.store\n            .failures', '            return false;\n        }\n        self.store\n            .failures', 'violation'),
  ('c04-add-failure-same-reporter-counts-twice', 'C04', U, '.map(|failures| failures.contains_key(&reporter_id))', '.map(|failures| failures.contains_key(&address))', 'violation'),
+ ('c14-nodes-single-slot-token', 'C14', PC, 'if range.start() == range.end() {\n                            range.start().to_string()', 'if range.start() + 1 >= range.end() {\n                            range.start().to_string()', 'violation'),
+ ('c14-nodes-ignored-still-listed', 'C14', PC, '                if should_ignore_slots(slot_range, migration_states) {\n                    return None;\n                }\n', '', 'violation'),
+ ('c14-nodes-local-flag', 'C14', PC, '            migration_states,\n            true,\n            cluster_nodes_version,', '            migration_states,\n            false,\n            cluster_nodes_version,', 'violation'),
  # ---- C01
  ('c01-compact-adjacent', 'C01', CL, 'if s.end() + 1 >= e.start() {', 'if s.end() >= e.start() {', 'violation'),
  ('c01-compact-truncate', 'C01', CL, 'self.0.truncate(a + 1);', 'self.0.truncate(a);', 'violation'),
